@@ -435,6 +435,16 @@ func (s *Sim) userActions() []Action {
 				}
 			}
 		}
+		if cfg.MigrationEdits && def.OldDS != "" {
+			// the user cancels the declared migration (the old DaemonSet and its pods stay) or declares it again
+			if _, ok := e.Annotations[edsv1.ExtendedDaemonSetOldDaemonsetAnnotationKey]; ok {
+				add("user.migration-cancel "+def.Key(), func() { s.userAnnotate(def.NS, def.Name, edsv1.ExtendedDaemonSetOldDaemonsetAnnotationKey, "-") })
+			} else {
+				add("user.migration-declare "+def.Key(), func() {
+					s.userAnnotate(def.NS, def.Name, edsv1.ExtendedDaemonSetOldDaemonsetAnnotationKey, def.OldDS)
+				})
+			}
+		}
 		if cfg.AnnotationEdits {
 			for _, ak := range userAnnotations {
 				ak := ak
